@@ -4,6 +4,7 @@
 //! `mc::refcond` (DESIGN.md Appendix A). Only verdict + canonical summary are compared.
 
 use mc::drive::{self, BIG_COST, H1, H2, P1, P2, PH1, PH2, all_rflags, coin_id, cond, output, real_parse, rflags_name, spend};
+use mc::letters::sigma2;
 use mc::refcond::{self, Env, RFlags, ref_validate};
 use mc::report::{Report, catch, fxhash};
 use mc::sx::{Sx, enc_u64, sha256};
@@ -313,86 +314,6 @@ fn layer1_ints(rep: &Report, env: &Env, flags: &[RFlags]) {
         }
     }
     loc.flush(rep);
-}
-
-/// the interaction alphabet: conditions that are well-formed or borderline, for spends A/B/C/D
-fn sigma2(env: &Env) -> Vec<(String, Sx)> {
-    let a_id = coin_id(&P1, &PH1, 5);
-    let c_id = coin_id(&P2, &PH1, 5);
-    let b_id = coin_id(&a_id, &PH2, 3);
-    let pk = Sx::Atom(env.valid_keys.iter().next().unwrap().clone());
-    let ann = |id: &[u8], m: &[u8]| Sx::atom(&sha256(&[id, m]));
-    let mut v: Vec<(String, Sx)> = Vec::new();
-    let mut add = |n: &str, s: Sx| v.push((n.to_string(), s));
-    for op in [80u8, 81, 82, 83, 84, 85, 86, 87] {
-        for (n, val) in [("0", Sx::nil()), ("1", Sx::int(1)), ("5", Sx::int(5)), ("neg", Sx::atom(&[0xff])), ("max", if op == 80 || op == 81 || op == 84 || op == 85 { Sx::int(u64::MAX) } else { Sx::int(u32::MAX as u64) }), ("over", if op == 80 || op == 81 || op == 84 || op == 85 { Sx::atom(&[1, 0, 0, 0, 0, 0, 0, 0, 0]) } else { Sx::atom(&[1, 0, 0, 0, 0]) })] {
-            add(&format!("op{op}"), cond(op, &[val]));
-            let _ = n;
-        }
-    }
-    for op in [74u8, 75] {
-        for val in [Sx::nil(), Sx::int(5)] {
-            add(&format!("op{op}"), cond(op, &[val]));
-        }
-    }
-    add("op51", cond(51, &[Sx::atom(&PH2), Sx::int(3)]));
-    add("op51", cond(51, &[Sx::atom(&PH1), Sx::int(5)]));
-    add("op51", cond(51, &[Sx::atom(&PH2), Sx::int(6)]));
-    add("op51", cond(51, &[Sx::atom(&PH2), Sx::int(3), Sx::list(&[Sx::atom(&H1)])]));
-    for val in [Sx::nil(), Sx::int(2), Sx::int(3), Sx::int(u64::MAX)] {
-        add("op52", cond(52, &[val]));
-    }
-    add("op60", cond(60, &[Sx::atom(b"hi")]));
-    add("op62", cond(62, &[Sx::atom(b"hi")]));
-    add("op61", cond(61, &[ann(&a_id, b"hi")]));
-    add("op61", cond(61, &[ann(&c_id, b"hi")]));
-    add("op61", cond(61, &[ann(&b_id, b"hi")]));
-    add("op63", cond(63, &[ann(&PH1, b"hi")]));
-    add("op63", cond(63, &[ann(&PH2, b"hi")]));
-    add("op64", cond(64, &[Sx::atom(&a_id)]));
-    add("op64", cond(64, &[Sx::atom(&c_id)]));
-    add("op64", cond(64, &[Sx::atom(&b_id)]));
-    add("op64", cond(64, &[Sx::atom(&H1)]));
-    add("op65", cond(65, &[Sx::atom(&PH1)]));
-    add("op65", cond(65, &[Sx::atom(&PH2)]));
-    add("op65", cond(65, &[Sx::atom(&H1)]));
-    add("op76", cond(76, &[]));
-    add("op70", cond(70, &[Sx::atom(&a_id)]));
-    add("op70", cond(70, &[Sx::atom(&b_id)]));
-    add("op71", cond(71, &[Sx::atom(&P1)]));
-    add("op71", cond(71, &[Sx::atom(&a_id)]));
-    add("op72", cond(72, &[Sx::atom(&PH1)]));
-    add("op72", cond(72, &[Sx::atom(&PH2)]));
-    add("op73", cond(73, &[Sx::int(5)]));
-    add("op73", cond(73, &[Sx::int(3)]));
-    for op in 43u8..=50 {
-        add(&format!("op{op}"), cond(op, &[pk.clone(), Sx::atom(b"m")]));
-    }
-    add("op1", cond(1, &[Sx::atom(b"x")]));
-    add("op90", cond(90, &[Sx::int(1)]));
-    add("opx02", Sx::list(&[Sx::atom(&[2]), Sx::atom(b"x")]));
-    add("opx0100", Sx::list(&[Sx::atom(&[1, 0]), Sx::atom(b"x")]));
-    // messages between A and its peer (B child or C sibling or D): every commitment style
-    // send from A (src by puzzle) to a coin identified by coin id / parent / puzzle+amount
-    let msg = Sx::atom(b"msg");
-    // mode = src<<3 | dst
-    add("op66", cond(66, &[Sx::int(0b010_111), msg.clone(), Sx::atom(&b_id)]));
-    add("op66", cond(66, &[Sx::int(0b010_111), msg.clone(), Sx::atom(&c_id)]));
-    add("op66", cond(66, &[Sx::int(0b111_100), msg.clone(), Sx::atom(&a_id)])); // to a coin whose parent is A
-    add("op66", cond(66, &[Sx::int(0b111_011), msg.clone(), Sx::atom(&PH2), Sx::int(3)]));
-    add("op66", cond(66, &[Sx::int(0b000_000), msg.clone()]));
-    add("op66", cond(66, &[Sx::int(0b100_010), msg.clone(), Sx::atom(&PH1)]));
-    add("op66", cond(66, &[Sx::int(0b001_001), msg.clone(), Sx::int(5)]));
-    // receives, as emitted by the peer: from A by puzzle / by coin id, self described variously
-    add("op67", cond(67, &[Sx::int(0b010_111), msg.clone(), Sx::atom(&PH1)]));
-    add("op67", cond(67, &[Sx::int(0b111_100), msg.clone(), Sx::atom(&a_id)]));
-    add("op67", cond(67, &[Sx::int(0b111_011), msg.clone(), Sx::atom(&a_id)]));
-    add("op67", cond(67, &[Sx::int(0b000_000), msg.clone()]));
-    add("op67", cond(67, &[Sx::int(0b100_010), msg.clone(), Sx::atom(&P1)]));
-    add("op67", cond(67, &[Sx::int(0b100_010), msg.clone(), Sx::atom(&P2)]));
-    add("op67", cond(67, &[Sx::int(0b001_001), msg.clone(), Sx::int(5)]));
-    add("op67", cond(67, &[Sx::int(0b010_111), Sx::atom(b"other"), Sx::atom(&PH1)]));
-    v
 }
 
 fn layer2(rep: &Report, env: &Env, flags: &[RFlags]) {
